@@ -263,8 +263,10 @@ def eval_subproc(case):
 def strat_peer():
     trouble = st.sampled_from([None, None, None, ['connect', 'refuse'], ['connect', 'close'], ['connect', 'timeout'], ['banner', 'close'], ['kexinit', 'stall'], ['gex_group', 'close']])
     return st.tuples(st.one_of(gens.rated_peer(), gens.rated_peer(), gens.rated_peer(), gens.all_clean_peer()), st.sampled_from(['server', 'server', 'client']), st.one_of(st.none(), st.none(), gens.unknown_name(12).filter(lambda s: not s.startswith('gss-')), gens.gss_name()),
-                     st.sampled_from([False, False, True]), trouble, st.booleans()).map(
-        lambda t: _cross(dict({'kind': 'peer', 'lists': dict(t[0], kex=t[0]['kex'] + ([t[2]] if t[2] else []) + (['diffie-hellman-group-exchange-sha256'] if t[4] and t[5] else [])), 'role': t[1]}, **dict(([('asym', True)] if t[3] else []) + ([('probe_trouble', t[4])] if t[4] and t[1] == 'server' else [])))))
+                     st.sampled_from([False, False, True]), trouble, st.booleans(),
+                     # what the peer announces about itself (protocol 1 still enabled, other products, nothing recognisable) is one more thing the options must not interact with
+                     st.sampled_from([None, None, None, 'SSH-1.99-OpenSSH_8.9', 'SSH-1.99-dropbear_2020.81', 'SSH-2.0-libssh_0.9.6', 'SSH-2.0-x', 'SSH-1.99-Cisco-1.25', 'SSH-2.0-OpenSSH_10.0', 'SSH-2.0-PuTTY_Release_0.78', 'SSH-2.0-OpenSSH_7.2 \x01odd'])).map(
+        lambda t: _cross(dict({'kind': 'peer', 'lists': dict(t[0], kex=t[0]['kex'] + ([t[2]] if t[2] else []) + (['diffie-hellman-group-exchange-sha256'] if t[4] and t[5] else [])), 'role': t[1]}, **dict(([('asym', True)] if t[3] else []) + ([('probe_trouble', t[4])] if t[4] and t[1] == 'server' else []) + ([('banner', t[6])] if t[6] else [])))))
 
 
 def _cross(case):
@@ -289,7 +291,7 @@ def run(ctx):
     # engine B sample (deterministic peers drawn from the table)
     rn = {c: gens.rated_names(c) for c in CATS}
     sub = []
-    k = 9 if ctx.quick else 60
+    k = 12 if ctx.quick else 60
     for i in range(k):
         lists = {}
         for c in CATS:
@@ -308,6 +310,9 @@ def run(ctx):
             lists['mac'] = lists['mac'] + ['aead-zz-256@example.com', 'zz-mac-1@example.org']
             lists['kex'] = lists['kex'] + ['zz-kex-a', 'zz-kex-b@example.net']
             lists['key'] = lists['key'] + ['zz-hostkey']
+        if i % 3 == 2:
+            # several advertised names behind one table entry (two GSS mechanisms of the same family): one order, whatever the hash seed
+            lists['kex'] = lists['kex'] + ['gss-gex-sha1-toWM5Slw5Ew8Mqkay+al2g==', 'gss-group14-sha1-toWM5Slw5Ew8Mqkay+al2g==', 'gss-gex-sha1-dZuIebMjgUqaxvbF7hDbAw==', 'gss-group14-sha1-dZuIebMjgUqaxvbF7hDbAw==', 'gss-gex-sha1-eipGX3TCiQSrx573bT1o1Q==', 'gss-group14-sha1-eipGX3TCiQSrx573bT1o1Q==']
         argv = [['-n'], ['-n', '-j'], ['-n', '-v'], ['-b'], ['-jj']][i % 5]
         sub.append({'kind': 'subproc', 'lists': {c: list(dict.fromkeys(l)) for c, l in lists.items()}, 'argv': argv, 'hashseeds': [0, 1, 2, 3, 4, 12345]})
         if i % 4 == 2:
